@@ -883,7 +883,7 @@ def gen_mp_history(rng, k, tier):
             op = ["del", key] if rng.random() < 0.5 else ["upd", g.doc(key, fs)]
             ops.insert(rng.randrange(len(ops) + 1), op)
         tx = {"ops": ops, "commit": rng.choice(["default", "nomerge", "nomerge", "optimize"]), "finish": finish,
-              "compound": rng.random() < 0.6, "front": "mp", "multiseg": multiseg,
+              "compound": ((k // 2 + j) % 2 == 0) if j < 2 else (rng.random() < 0.6), "front": "mp", "multiseg": multiseg,
               "procs": 2 if tier == "quick" else rng.choice([2, 2, 3]), "batch": rng.choice([1, 1, 2])}
         if rng.random() < 0.35:
             tx["limitmb"] = 0.0002          # the sub-writers spill sorted runs into MAIN.tmp/ as well
@@ -1007,6 +1007,8 @@ def run_monitored_tx(ctx, tap, root, d, idx, j, tx, rng, wb, model, new_model, f
         guard = _MpGuard(run, rt, MP_TIMEOUT_S)
         ctx.count("mp.tx")
         ctx.count("mp.tx.%s.%s" % ("multisegment" if tx.get("multiseg") else "merged", tx["finish"]))
+        ctx.count("mp.tx.%s.%s.%s" % ("multisegment" if tx.get("multiseg") else "merged", tx["finish"],
+                                      "compound" if tx["compound"] else "loose"))
     tap.reset_log()
     tap.on_event = run.on_event
     random.seed("c02-tx:%d:%d:%d" % (ctx.seed, idx, j))     # same seed string as the SIGKILL victim uses
